@@ -1,9 +1,11 @@
 """C01 configuration for ./check and mkmanifest"""
 CFG = {
   'ready': True,
-  'gens': ['gen_consts.py', 'gen_txbuilder.py'],
+  'gens': ['gen_consts.py', 'gen_txbuilder.py', 'gen_htlc_tables.py'],
   'props_module': 'LdkModel.Props.C01',
-  'models': ['c01txb'],
+  'models': ['c01txb', 'chan'],
+  'model_bins': {'chan': 'chan'},
+  'model_drivers': {'chan': 'drv_chan'},
   'level_text': 'Lean 4 theorems (conservation, exactly-once HTLC representation, stats/limits arithmetic) over a model whose arithmetic core — all of sign/tx_builder.rs statistics and send-limit code and the chan_utils.rs fee helpers — is re-TRANSLATED from the Rust source on every run, plus a differential run of the real SpecTxBuilder (stats, available balances, built transaction outputs) against the model driver on boundary tuples, plus an implementation-side conservation oracle on the real bitcoin::Transaction',
   'level_note': 'Trusted: Lean kernel; axioms {propext, Classical.choice, Quot.sound}; translators gen_consts.py / gen_txbuilder.py (rs2lean.py); the hand-written mirror of build_commitment_transaction / CommitmentTransaction::new (Model/TxBuilder.lean), tied by the c01txb correspondence; the finite correspondence sample. The two-party update state machine (agreement, balance tracking, reconnection) and cooperative close are validated by the scenario engine, proofs over the channel model are in progress (see partial).',
   'modelled': 'get_next_commitment_stats, get_available_balances, has_output, dust exposure, fee helpers: generated translation; build_commitment_transaction + output list: hand-written mirror; splice-out maximum: not modelled (constant 0, field not compared)',
